@@ -264,8 +264,8 @@ func Protect(f func() error) (err error) {
 	defer func() {
 		if r := recover(); r != nil {
 			st := string(debug.Stack())
-			if len(st) > 3000 {
-				st = st[:3000]
+			if len(st) > 1500 {
+				st = st[:1500]
 			}
 			err = fmt.Errorf("panic: %v\n%s", r, st)
 		}
